@@ -71,6 +71,7 @@ func (a *application) start(mode gen.ApplicationMode, options gen.ApplicationOpt
 			return err
 		}
 
+		lib.VerifPoint("app.member.spawned", pid.ID)
 		a.group.Store(pid, true)
 	}
 
